@@ -79,9 +79,11 @@ Print Assumptions C20_vehicle_aggregates.
    location are vehicle start / end stops: they have no own duration and, by
    wf_input, are in no duration group, so they take no time whatever stop is
    in front of them and leaving them out of the stops duration loses nothing:
-   C20_proofs.stop_duration_invalid, stop_duration_at_invalid).  The duration
-   reported for a stop is end - start of its cell: it includes the duration of
-   the stop's group when the stop in front of it is not in that group. *)
+   C20_proofs.stop_duration_invalid, stop_duration_at_invalid,
+   stop_duration_on_invalid: scaling 0 by the vehicle's stop duration
+   multiplier gives 0).  The duration reported for a stop is end - start of its
+   cell: the own duration and -- when the stop in front of it is not in the
+   stop's group -- the group duration, each scaled by the vehicle's multiplier. *)
 Theorem C20_waiting_is_sum_of_waits : forall inp s v,
   wf_input inp -> reachable inp s -> (v < nveh inp)%nat ->
   vo_waiting (vehicle_output inp v (get_route s v))
